@@ -116,7 +116,9 @@ class AsyncioTransportStreamSocketAdapter(AsyncStreamTransport):
         return await self.__protocol.receive_data_into(buffer)
 
     async def send_all(self, data: bytes | bytearray | memoryview) -> None:
-        self.__transport.write(data)
+        # asyncio's selector transport slices and measures the buffers it keeps by ITEMS (memoryview(data)[n:], len(b)):
+        # hand it flat views of bytes only.
+        self.__transport.write(_flat_view(data))
         await self.__protocol.writer_drain()
 
     async def send_all_from_iterable(self, iterable_of_data: Iterable[bytes | bytearray | memoryview]) -> None:
@@ -124,7 +126,7 @@ class AsyncioTransportStreamSocketAdapter(AsyncStreamTransport):
         # removed (sendmsg() reports 0 byte sent for it), so the write callback would be called in a busy loop
         # and transport.close() would never complete.
         try:
-            self.__transport.writelines([data for data in iterable_of_data if memoryview(data).nbytes])
+            self.__transport.writelines([_flat_view(data) for data in iterable_of_data if memoryview(data).nbytes])
         except AttributeError:
             # Unlike write(), writelines() does not always cope with a transport whose connection is already lost
             # (e.g. asyncio's selector transport in CPython 3.12.1 uses its event loop, which is None by then).
@@ -150,6 +152,12 @@ class AsyncioTransportStreamSocketAdapter(AsyncStreamTransport):
     @property
     def extra_attributes(self) -> Mapping[Any, Callable[[], Any]]:
         return self.__extra_attributes
+
+
+def _flat_view(data: bytes | bytearray | memoryview) -> bytes | bytearray | memoryview:
+    if isinstance(data, memoryview) and (data.itemsize != 1 or data.ndim != 1):
+        return data.cast("B")
+    return data
 
 
 class StreamReaderBufferedProtocol(asyncio.BufferedProtocol):
